@@ -14,7 +14,7 @@ Regions == [raw |-> <<"filler_a", "config", "filler_b">>,
             guard |-> <<"filler_a", "masked_config", "guard_config", "filler_b">>,
             http |-> <<"startline", "headers", "body">>]
 Fields == [raw |-> {"setting_length", "ua_length", "first_index"},
-           pe |-> {"e_lfanew", "n_sections", "opt_size", "export_rva", "sec_rawptr", "sec_vsize", "sec_rawsize", "size_of_headers", "machine", "setting_length"},
+           pe |-> {"e_lfanew", "n_sections", "opt_size", "export_rva", "export_size", "sec_vaddr", "sec_rawptr", "sec_vsize", "sec_rawsize", "size_of_headers", "machine", "setting_length"},
            xorenc |-> {"nonce_size", "marker", "e_lfanew", "n_sections"},
            guard |-> {"guard_marker", "guard_opt_length", "guard_checksum", "guard_checksum_length", "guard_terminator"},
            http |-> {"status", "crlfcrlf", "version"}]
